@@ -37,6 +37,14 @@ EXECUTOR_KW = {}
 FAMILY = "ExtractionError"
 
 
+STRIP_EMPTY = STRIP(z3.StringVal("")) == z3.StringVal("")     # concrete fact about the uninterpreted str.strip: "".strip() == ""
+
+
+def verifying(c, suffix):
+    """True while the function itself is being verified (False when its contract is applied at a call site)."""
+    return c.ex.contract is not None and c.ex.contract.target.endswith(suffix)
+
+
 def forall(n, body, name="k!q", pattern=None):
     k = z3.Int(name)
     b = body(k)
@@ -421,11 +429,11 @@ def pem_contract():
         for f, hname in HEADER_FIELDS.items():
             d[f] = ex.new_alist(st, addr_list_value(st, M.hdr_opt(m, hname)))
         obj = ex.new_obj(st, "EmailContent", d)
-        st.ghost[("result_of", obj.ref)] = (m, M.snapshot(st, obj, PEM_SNAPSHOT))
+        st.ghost[("result_of", obj.ref)] = (M.SRC_MSG(m), M.snapshot(st, obj, PEM_SNAPSHOT))
         return obj
 
     def hyp(c):
-        return M.ATT_N(m_of(c)) >= 0          # a count
+        return z3.And(M.ATT_N(m_of(c)) >= 0, STRIP_EMPTY)          # a count; "".strip() == ""
 
     return FnContract(
         target=f"{MBOX}::parse_email_message",
@@ -479,7 +487,7 @@ def mbox_contract():
         el = lc.seq.elem if isinstance(lc.seq, VSeq) else seq_of(lc.st, lc.seq)[1]
         i = lc.i
         return Conj([("count", n == i),
-                     ("order", forall(i, lambda k: z3.Select(src, k) == M.MFB(el(k).t), "k!mo")),
+                     ("order", forall(i, lambda k: z3.Select(src, k) == M.SRC_MSG(M.MFB(el(k).t)), "k!mo")),
                      ("intact", forall(i, lambda k: z3.Select(ok, k), "k!mi"))])
 
     def e_count(c):
@@ -491,7 +499,7 @@ def mbox_contract():
         n, src, ok = c.ex.yc_get(c.st)
         D = D_of(c)
         return forall(M.M_N(P, D), lambda k: z3.Implies(z3.Length(M.piece(P, D, k)) > 0, z3.And(
-            z3.Select(src, M.CNT_SP(P, D, k)) == M.MFB(M.piece(P, D, k)), z3.Select(ok, M.CNT_SP(P, D, k)))), "k!me")
+            z3.Select(src, M.CNT_SP(P, D, k)) == M.SRC_MSG(M.MFB(M.piece(P, D, k))), z3.Select(ok, M.CNT_SP(P, D, k)))), "k!me")
 
     return FnContract(
         target=f"{MBOX}::read_mbox_format_mail",
@@ -505,9 +513,209 @@ def mbox_contract():
     )
 
 
+# ==================================================================== (e) .eml ==
+def sup_mime(t):
+    """is_supported_mime_type, from the property: the MIME type is one the package has an extractor for (mime_types table)."""
+    from contracts import C07
+    return z3.Or([t == z3.StringVal(k) for k in C07.tables()[3]])
+
+
+def or_default(a, key, default):
+    kk = z3.StringVal(key)
+    return z3.If(z3.And(z3.Not(M.AD_NONE(a, kk)), z3.Length(M.AD_STR(a, kk)) > 0), M.AD_STR(a, kk), z3.StringVal(default))
+
+
+def att_fields(st, v):
+    """(filename, mime_type, content-of-data, flag) terms of an EmailAttachment value."""
+    if isinstance(v, VRef):
+        d = st.obj(v.ref).data
+        return d["filename"].t, d["mime_type"].t, M.CONTENT(d["data"].t), d["is_supported_mime_type"].t
+    if isinstance(v, VExt) and v.sort == "EmailAttachment":
+        f = lambda name, sort: fld("EmailAttachment", name, sort)(v.t)
+        return f("filename", S), f("mime_type", S), M.CONTENT(f("data", M.BioS)), f("is_supported_mime_type", B)
+    raise Unsupported(f"EmailAttachment expected, got {v!r}")
+
+
+def att_ok(st, v, a):
+    """The EmailAttachment v is attachment dict a: name, type, exact bytes, support flag."""
+    if isinstance(v, VUnk):
+        return z3.BoolVal(False)
+    fn, mt, content, flag = att_fields(st, v)
+    mime = or_default(a, "mail_content_type", "application/octet-stream")
+    return z3.And(fn == or_default(a, "filename", "attachment"), mt == mime, content == M.ATT_BYTES(a), flag == sup_mime(mime))
+
+
+def mail_addr_list_matches(st, v, mail, field):
+    """Bool: list v == [EmailAddress(n, a) for (n, a) in mail.<field> if a] (the recipients that carry an address), decided
+    on the structure of the comprehension that built v: same source, same filter, same elements (pointwise)."""
+    f = z3.StringVal(field)
+    n_spec = M.ML_N(mail, f)
+    tag = M.seq_tag(st, v)
+    if not (isinstance(tag, tuple) and tag and tag[0] in ("map", "filtermap")):
+        return None
+    if tag[0] == "map":
+        _t, n, el = tag
+        keep = lambda k: z3.BoolVal(True)
+    else:
+        _t, n, keep, el = tag
+
+    def body(k):
+        e = el(k)
+        if isinstance(e, VUnk):
+            return z3.BoolVal(False)
+        nm, ad = addr_fields(st, e)
+        return z3.And(keep(k) == (z3.Length(M.ML_ADDR(mail, f, k)) > 0), nm == M.ML_NAME(mail, f, k), ad == M.ML_ADDR(mail, f, k))
+    return z3.And(n == n_spec, forall(n_spec, body, "k!mlm"))
+
+
+def eml_spec(mail):
+    def h(field):
+        kk = z3.StringVal(field)
+        return z3.If(z3.And(z3.Not(M.MH_NONE(mail, kk)), z3.Length(M.MH(mail, kk)) > 0), M.MH(mail, kk), M.EMPTY)
+
+    def text(field):
+        kk = z3.StringVal(field)
+        lam = z3.Lambda([K], M.MT_AT(mail, kk, K))
+        return z3.If(M.MT_N(mail, kk) > 0, JOIN(z3.StringVal("\n"), lam, M.MT_N(mail, kk)), M.EMPTY)
+    fr = z3.StringVal("from_")
+    has_from = M.ML_N(mail, fr) > 0
+    return {
+        "subject": STRIP(h("subject")), "in_reply_to": h("in_reply_to"), "message_id": h("message_id"),
+        "date": z3.If(M.MDATE_NONE(mail), M.EMPTY, M.ISO(M.MDATE(mail))),
+        "from_name": z3.If(has_from, M.ML_NAME(mail, fr, 0), M.EMPTY), "from_addr": z3.If(has_from, M.ML_ADDR(mail, fr, 0), M.EMPTY),
+        "body_plain": STRIP(text("text_plain")), "body_html": text("text_html"),
+    }
+
+
+EML_LISTS = {"to_emails": "to", "to_cc": "cc", "to_bcc": "bcc", "reply_to": "reply_to"}
+LIB_SITES = ("mailparser.parse_from_bytes", "base64.b64decode")
+
+
+def eml_contract():
+    def mail_of(c):
+        return M.MAILOF(M.bytes_term(c.args["payload"]))
+
+    def data(c):
+        if not isinstance(c.result, VRef) or c.st.obj(c.result.ref).kind != "obj":
+            raise Unsupported("_read_eml_format result is not an object")
+        return c.st.obj(c.result.ref).data
+
+    def f_str(path, key):
+        def e(c):
+            v = M._path_get(c.st, c.result, path)
+            if not isinstance(v, VStr):
+                return z3.BoolVal(False)
+            return v.t == eml_spec(mail_of(c))[key]
+        return e
+
+    def e_from(c):
+        nm, ad = addr_fields(c.st, data(c)["from_email"])
+        sp = eml_spec(mail_of(c))
+        return z3.And(nm == sp["from_name"], ad == sp["from_addr"])
+
+    def e_list(field):
+        def e(c):
+            if not verifying(c, "::_read_eml_format"):
+                return z3.BoolVal(True)       # call site: nothing is said about the lists beyond the contract's result object
+            r = mail_addr_list_matches(c.st, data(c)[field], mail_of(c), EML_LISTS[field])
+            if r is None:
+                c.note = "list not built by a comprehension over the mail's entries: shape not recognised"
+                return z3.BoolVal(False)
+            return r
+        return e
+
+    def e_atts(c):
+        if not verifying(c, "::_read_eml_format"):
+            return z3.BoolVal(True)
+        mail = mail_of(c)
+        r = seq_of(c.st, data(c)["attachments"], ("obj", "EmailAttachment"))
+        if r is None:
+            return z3.BoolVal(False)
+        n, el = r
+        return z3.And(n == M.MA_N(mail), forall(n, lambda k: att_ok(c.st, el(k), M.MA_AT(mail, k)), "k!ea"))
+
+    def inv(lc):
+        mail = M.MAILOF(M.bytes_term(lc.entry.lookup("payload")))
+        n, el = built_list(lc, 0, ("obj", "EmailAttachment"))
+        i = lc.i
+        return Conj([("count", n == i), ("items", forall(i, lambda k: att_ok(lc.st, el(k), M.MA_AT(mail, k)), "k!ei"))])
+
+    def lib_only(c):
+        return z3.BoolVal(c.exc is not None and c.exc.attrs.get("site") in LIB_SITES)
+
+    def result_maker(ex, st, ctx):
+        mail = M.MAILOF(M.bytes_term(ctx.args["payload"]))
+        sp = eml_spec(mail)
+        md = ex.new_obj(st, "EmailMetadata", {"date": VStr(sp["date"]), "message_id": VStr(sp["message_id"]), "filename": NONE,
+                                              "file_extension": NONE, "file_path": NONE, "folder_path": NONE})
+        frm = ex.new_obj(st, "EmailAddress", {"name": VStr(sp["from_name"]), "address": VStr(sp["from_addr"])})
+        d = {"from_email": frm, "subject": VStr(sp["subject"]), "in_reply_to": VStr(sp["in_reply_to"]), "body_plain": VStr(sp["body_plain"]),
+             "body_html": VStr(sp["body_html"]), "metadata": md}
+        for f in list(EML_LISTS) + ["attachments"]:
+            sq = X.fresh_seq_like("unk", f)
+            st.assume(sq.length >= 0)
+            d[f] = ex.new_alist(st, sq)
+        obj = ex.new_obj(st, "EmailContent", d)
+        st.ghost[("result_of", obj.ref)] = (M.SRC_MAIL(mail), M.snapshot(st, obj, PEM_SNAPSHOT))
+        return obj
+
+    return FnContract(
+        target=f"{EML}::_read_eml_format",
+        params=[("payload", p_str())],
+        hyps=lambda c: STRIP_EMPTY,
+        ensures=[("subject-is-the-decoded-subject", f_str(("subject",), "subject")),
+                 ("from_email-is-the-first-From-entry-or-empty", e_from),
+                 ("to_emails-are-the-To-entries-with-an-address", e_list("to_emails")),
+                 ("to_cc-are-the-Cc-entries-with-an-address", e_list("to_cc")),
+                 ("to_bcc-are-the-Bcc-entries-with-an-address", e_list("to_bcc")),
+                 ("reply_to-are-the-Reply-To-entries-with-an-address", e_list("reply_to")),
+                 ("in_reply_to-is-In-Reply-To", f_str(("in_reply_to",), "in_reply_to")),
+                 ("date-is-the-ISO-date-or-empty", f_str(("metadata", "date"), "date")),
+                 ("message_id-is-Message-ID", f_str(("metadata", "message_id"), "message_id")),
+                 ("body_plain-is-the-joined-plain-parts", f_str(("body_plain",), "body_plain")),
+                 ("body_html-is-the-joined-html-parts", f_str(("body_html",), "body_html")),
+                 ("every-attachment-with-name-type-exact-bytes-and-support-flag", e_atts)],
+        raises=[Raises("Exception", sub=True, when=lib_only, label="only what mailparser / base64 raise; the glue itself is total")],
+        loops={0: LoopSpec(inv=inv, label="attachments")},
+        result_maker=result_maker,
+        note="field mapping from the mailparser view; attachment data == decoded payload",
+    )
+
+
+def read_eml_contract():
+    def e_one(c):
+        n, src, ok = c.ex.yc_get(c.st)
+        mail = M.MAILOF(M.CONTENT(c.args["file_like"].t))
+        return z3.And(n == 1, z3.Select(src, 0) == M.SRC_MAIL(mail), z3.Select(ok, 0))
+
+    return FnContract(
+        target=f"{EML}::read_eml_format_mail",
+        params=[("file_like", p_ext("BytesIO")), ("path", p_opt(p_str()))],
+        generator=True,
+        ensures=[("yields-exactly-the-parsed-message", e_one)],
+        raises=[Raises(FAMILY, sub=True, label="parser failures arrive wrapped in the ExtractionError family")],
+        note="one result: _read_eml_format(file_like.getvalue()), C16 fields untouched afterwards",
+    )
+
+
+def router_contracts(reg):
+    """router / mime_types contracts: verified by the C07 pack, reused here as assumed-verified."""
+    from contracts import C07
+    out = []
+    for c in C07.contracts(reg):
+        if c.target.startswith(C07.ROUTER) or c.target.startswith(C07.MIME):
+            c.assumed = True
+            c.note = "verified by the C07 pack"
+            out.append(c)
+    return out
+
+
 def contracts(reg):
     M.install(reg)
     out = []
+    out.extend(router_contracts(reg))
+    out.append(eml_contract())
+    out.append(read_eml_contract())
     out.append(split_contract())
     out.append(body_contract())
     out.append(pem_contract())
